@@ -39,6 +39,7 @@ from ..engine import (
     kwarg,
     mutation_sites,
     norm,
+    parent,
     qualname_of,
     stmt_of,
     walk_no_nested,
@@ -55,14 +56,15 @@ DICT_CTORS = {"dict", "defaultdict", "OrderedDict"}
 
 
 def _deref(fn: Optional[ast.AST], e: Optional[ast.AST]) -> Optional[ast.AST]:
-    """The expression a local stands for: a name bound exactly once in *fn* (plain assignment) is replaced
-    by its right-hand side; anything else is returned unchanged."""
+    """The expression a local stands for: a name bound exactly once in *fn* (plain assignment, or one position of
+    a tuple assignment from a displayed tuple) is replaced by its right-hand side; anything else is returned unchanged."""
     for _ in range(3):
         if fn is None or not isinstance(e, ast.Name):
             return e
         stores = [n for n in walk_no_nested(fn) if isinstance(n, ast.Name) and n.id == e.id and isinstance(n.ctx, (ast.Store, ast.Del))]
-        vals = assigned_value(fn, e.id)
-        if len(stores) != 1 or len(vals) != 1:
+        paired = [v for st in walk_no_nested(fn) for nm, v in _bindings(st) if nm == e.id]  # `a, b = x, y` binds a to x
+        vals = paired if paired else assigned_value(fn, e.id)
+        if len(stores) != 1 or len(vals) != 1 or vals[0] is None:
             return e
         if not isinstance(vals[0], (ast.Constant, ast.JoinedStr, ast.Name)) and mutation_sites(fn, {e.id}):
             return e  # the object is changed after it was built: the literal is not its final value
@@ -99,6 +101,230 @@ def _bindings(st: ast.AST) -> List[Tuple[str, Optional[ast.AST]]]:
     return out
 
 
+# ---------------------------------------------------------------------------
+# what a mapping holds at a use (literal / dict(...) / ** spread / successive stores / update / setdefault / |=)
+# ---------------------------------------------------------------------------
+MapState = Dict[object, List[Optional[ast.AST]]]  # constant key -> the expressions it can hold (None: may be absent), in insertion order
+_UNKNOWN = "?"  # the mapping escaped / was changed in a way that is not understood
+_READ_ONLY_METHODS = {"get", "keys", "items", "values", "copy", "__contains__", "__len__", "__getitem__"}
+_READ_ONLY_FUNCS = {"len", "dict", "str", "repr", "bool", "list", "tuple", "sorted", "set", "frozenset", "isinstance", "type", "id"}
+_CFG_CACHE: Dict[int, Tuple[ast.AST, CFG]] = {}
+
+
+def _plain_cfg(fn: ast.AST) -> CFG:
+    hit = _CFG_CACHE.get(id(fn))
+    if hit is None or hit[0] is not fn:
+        hit = (fn, CFG(fn))
+        _CFG_CACHE[id(fn)] = hit
+    return hit[1]
+
+
+def _node_of(g: CFG, expr: ast.AST) -> Optional[int]:
+    """The CFG node at which *expr* is evaluated."""
+    for n in g.nodes:
+        scope = n.ast if n.kind == "stmt" else n.part
+        if scope is not None and any(x is expr for x in ast.walk(scope)):
+            return n.id
+    return None
+
+
+def _overlay(base: MapState, top: MapState) -> MapState:
+    """*base* after the entries of *top* were written over it (an entry of *top* that may be absent keeps what was there)."""
+    out: MapState = {k: list(v) for k, v in base.items()}
+    for k, vs in top.items():
+        if None in vs:
+            old = out.get(k, [None])
+            out[k] = [v for v in vs if v is not None] + [v for v in old if not any(v is x for x in vs if x is not None)]
+        else:
+            out[k] = list(vs)
+    return out
+
+
+def _join_maps(a, b):
+    if a is None:
+        return b
+    if b is None:
+        return a
+    if a == _UNKNOWN or b == _UNKNOWN:
+        return _UNKNOWN
+    out: MapState = {}
+    for k in list(a) + [k for k in b if k not in a]:
+        va, vb = a.get(k, [None]), b.get(k, [None])
+        out[k] = list(va) + [v for v in vb if not any(v is x for x in va)]
+    return out
+
+
+def _same_state(a, b) -> bool:
+    if a is None or b is None or a == _UNKNOWN or b == _UNKNOWN:
+        return (a is None and b is None) or (a == _UNKNOWN and b == _UNKNOWN)
+    return list(a) == list(b) and all(len(a[k]) == len(b[k]) and all(x is y for x, y in zip(a[k], b[k])) for k in a)
+
+
+def mapping_of(fn: ast.AST, g: CFG, e: Optional[ast.AST], at: int, depth: int = 0) -> Optional[MapState]:
+    """{constant key: possible value expressions} of the mapping *e* evaluates to at CFG node *at*, however it was
+    assembled: a dict display (with ** spreads), `dict(..)`, `a | b`, a conditional expression of those, or a local
+    built by any of them and then filled by `m[k] = v` / `m.update(..)` / `m.setdefault(..)` / `m |= ..` on the way to
+    *at* (decided on the CFG: a store that only some paths pass leaves the key possibly absent).  None: not understood."""
+    if e is None or depth > 5:
+        return None
+    if isinstance(e, ast.Dict):
+        out: MapState = {}
+        for k, v in zip(e.keys, e.values):
+            if k is None:
+                sub = mapping_of(fn, g, v, at, depth + 1)
+                if sub is None:
+                    return None
+                out = _overlay(out, sub)
+            elif isinstance(k, ast.Constant):
+                out[k.value] = [v]
+            else:
+                return None
+        return out
+    if isinstance(e, ast.Call) and isinstance(e.func, ast.Name) and e.func.id == "dict" and len(e.args) <= 1:
+        out = {}
+        if e.args:
+            a0 = e.args[0]
+            if isinstance(a0, (ast.List, ast.Tuple)) and all(isinstance(p, (ast.Tuple, ast.List)) and len(p.elts) == 2 and isinstance(p.elts[0], ast.Constant) for p in a0.elts):
+                out = {p.elts[0].value: [p.elts[1]] for p in a0.elts}  # type: ignore[union-attr]
+            else:
+                sub = mapping_of(fn, g, a0, at, depth + 1)
+                if sub is None:
+                    return None
+                out = _overlay(out, sub)
+        for kw in e.keywords:
+            if kw.arg is None:
+                sub = mapping_of(fn, g, kw.value, at, depth + 1)
+                if sub is None:
+                    return None
+                out = _overlay(out, sub)
+            else:
+                out[kw.arg] = [kw.value]
+        return out
+    if isinstance(e, ast.Call) and call_attr(e) == "copy" and not e.args and isinstance(e.func, ast.Attribute):
+        return mapping_of(fn, g, e.func.value, at, depth + 1)
+    if isinstance(e, ast.IfExp):
+        a, b = mapping_of(fn, g, e.body, at, depth + 1), mapping_of(fn, g, e.orelse, at, depth + 1)
+        return _join_maps(a, b) if a is not None and b is not None else None
+    if isinstance(e, ast.BinOp) and isinstance(e.op, ast.BitOr):
+        a, b = mapping_of(fn, g, e.left, at, depth + 1), mapping_of(fn, g, e.right, at, depth + 1)
+        return _overlay(a, b) if a is not None and b is not None else None
+    if isinstance(e, ast.Name):
+        return _mapping_of_local(fn, g, e.id, at, depth + 1)
+    return None
+
+
+def _mapping_of_local(fn: ast.AST, g: CFG, nm: str, at: int, depth: int) -> Optional[MapState]:
+    """Forward data flow over the CFG: the state of the mapping local *nm* on entry of node *at*."""
+
+    def occurrences(part: ast.AST) -> List[ast.Name]:
+        return [x for x in walk_no_nested(part) if isinstance(x, ast.Name) and x.id == nm]
+
+    def read_only(x: ast.Name, node_id: int) -> bool:
+        p = parent(x)
+        if isinstance(p, ast.Attribute) and p.value is x:
+            return p.attr in _READ_ONLY_METHODS
+        if isinstance(p, ast.Subscript) and p.value is x:
+            return isinstance(p.ctx, ast.Load)
+        if isinstance(p, (ast.Compare, ast.FormattedValue, ast.BoolOp, ast.UnaryOp, ast.If, ast.While, ast.IfExp, ast.Return)):
+            return not (isinstance(p, (ast.BoolOp, ast.IfExp, ast.Return)) and isinstance(parent(p), (ast.Assign, ast.AnnAssign, ast.Call)))
+        if isinstance(p, ast.keyword):
+            p = parent(p)
+        if isinstance(p, ast.Call):
+            if node_id == at:
+                return True  # the use itself: whatever the callee does happens after the hand-over
+            return isinstance(p.func, ast.Name) and p.func.id in _READ_ONLY_FUNCS
+        return False
+
+    def transfer(node, st):
+        a = node.ast
+        if a is None or node.kind in ("entry", "join", "ret_exit", "exc_exit", "base_exit"):
+            return st
+        if node.kind == "stmt" and isinstance(a, (ast.Assign, ast.AnnAssign, ast.AugAssign)):
+            binds = _bindings(a)
+            if any(n2 == nm for n2, _v in binds):
+                if isinstance(a, ast.AugAssign):
+                    top = mapping_of(fn, g, a.value, node.id, depth + 1) if isinstance(a.op, ast.BitOr) else None
+                    return _overlay(st, top) if top is not None and st is not None and st != _UNKNOWN else _UNKNOWN
+                vals = [v for n2, v in binds if n2 == nm]
+                if len(vals) != 1 or vals[0] is None or (isinstance(a, ast.Assign) and len(a.targets) > 1):
+                    return _UNKNOWN
+                m = mapping_of(fn, g, vals[0], node.id, depth + 1)
+                return m if m is not None else _UNKNOWN
+            if isinstance(a, ast.AnnAssign) and a.value is None:
+                return st
+        if node.kind in ("for", "with", "except"):
+            tgt = a.target if isinstance(a, (ast.For, ast.AsyncFor)) else None
+            names = {x.id for x in ast.walk(tgt) if isinstance(x, ast.Name)} if tgt is not None else set()
+            if isinstance(a, (ast.With, ast.AsyncWith)):
+                names |= {x.id for it in a.items if it.optional_vars is not None for x in ast.walk(it.optional_vars) if isinstance(x, ast.Name)}
+            if isinstance(a, ast.ExceptHandler) and a.name:
+                names.add(a.name)
+            if nm in names:
+                return _UNKNOWN
+        if st is None or st == _UNKNOWN:
+            return st
+        part = a if node.kind == "stmt" else node.part
+        if part is None or isinstance(part, FuncNode + (ast.ClassDef,)):
+            return st
+        occ = occurrences(part)
+        if not occ:
+            return st
+        # the statement forms that fill a mapping
+        if isinstance(a, ast.Assign) and node.kind == "stmt" and len(a.targets) == 1 and isinstance(a.targets[0], ast.Subscript) \
+                and isinstance(a.targets[0].value, ast.Name) and a.targets[0].value.id == nm and len(occ) == 1:
+            if not isinstance(a.targets[0].slice, ast.Constant):
+                return _UNKNOWN
+            out = {k: list(v) for k, v in st.items()}
+            out[a.targets[0].slice.value] = [a.value]
+            return out
+        if isinstance(a, ast.Expr) and isinstance(a.value, ast.Call) and isinstance(a.value.func, ast.Attribute) \
+                and isinstance(a.value.func.value, ast.Name) and a.value.func.value.id == nm and len(occ) == 1:
+            c = a.value
+            meth = c.func.attr  # type: ignore[attr-defined]
+            if meth == "update" and len(c.args) <= 1:
+                out = {k: list(v) for k, v in st.items()}
+                if c.args:
+                    top = mapping_of(fn, g, c.args[0], node.id, depth + 1)
+                    if top is None:
+                        return _UNKNOWN
+                    out = _overlay(out, top)
+                for kw in c.keywords:
+                    if kw.arg is None:
+                        top = mapping_of(fn, g, kw.value, node.id, depth + 1)
+                        if top is None:
+                            return _UNKNOWN
+                        out = _overlay(out, top)
+                    else:
+                        out[kw.arg] = [kw.value]
+                return out
+            if meth == "setdefault" and len(c.args) == 2 and isinstance(c.args[0], ast.Constant) and not c.keywords:
+                out = {k: list(v) for k, v in st.items()}
+                old = out.get(c.args[0].value, [None])
+                out[c.args[0].value] = [v for v in old if v is not None] + ([c.args[1]] if None in old else [])
+                return out
+            if meth in _READ_ONLY_METHODS:
+                return st
+            return _UNKNOWN
+        return st if all(read_only(x, node.id) for x in occ) else _UNKNOWN
+
+    state: Dict[int, object] = {g.entry: None}
+    reached = {g.entry}
+    todo = [g.entry]
+    steps = 0
+    while todo and steps < 20000:
+        steps += 1
+        n = todo.pop(0)
+        out = transfer(g.nodes[n], state.get(n))
+        for t, _lab in g.succ[n]:
+            new = _join_maps(state.get(t), out) if t in reached else out
+            if t not in reached or not _same_state(new, state.get(t)):
+                reached.add(t)
+                state[t] = new
+                todo.append(t)
+    res = state.get(at) if at in reached else None
+    return res if isinstance(res, dict) else None
+
+
 def role_function(repo: Repo, rel: str, entry: str, has, what: str, **opts) -> Tuple[str, str, ast.AST]:
     """(file, qualified name, normal form) of the function that plays a role below a stable entry point (a public
     name callers use): the entry point itself when, with its private helpers inlined, it contains the construct
@@ -131,7 +357,9 @@ def _unwrap_iter(e: ast.AST) -> ast.AST:
 
 
 def metadata_aliases(fn: ast.AST) -> Dict[str, str]:
-    """{local: message} for locals of *fn* every value of which is `<message>.metadata` (or `<message>.metadata or {}`)."""
+    """{local: message} for locals of *fn* every value of which is `<message>.metadata`, possibly with an empty
+    mapping standing in for a missing one (`<message>.metadata or {}` in any spelling, or a separate `local = {}`
+    where the metadata was None / falsy: the stand-in holds nothing, a read of it finds nothing)."""
     vals: Dict[str, List[Optional[ast.AST]]] = {}
     for st in walk_no_nested(fn):
         for nm, v in _bindings(st):
@@ -140,8 +368,9 @@ def metadata_aliases(fn: ast.AST) -> Dict[str, str]:
     for nm, vs in vals.items():
         roots = set()
         for v in vs:
-            if isinstance(v, ast.BoolOp) and isinstance(v.op, ast.Or) and len(v.values) == 2 and isinstance(v.values[1], ast.Dict) and not v.values[1].keys:
-                v = v.values[0]
+            if _is_empty_dict(v):
+                continue
+            v = _or_empty(v) if v is not None else v
             roots.add(v.value.id if isinstance(v, ast.Attribute) and v.attr == "metadata" and isinstance(v.value, ast.Name) else None)
         if len(roots) == 1 and None not in roots:
             out[nm] = roots.pop()  # type: ignore[assignment]
@@ -154,11 +383,36 @@ def _reads_metadata(e: ast.AST, msg: str, aliases: Optional[Dict[str, str]] = No
     recv = {f"{msg}.metadata"} | {a for a, m in (aliases or {}).items() if m == msg}
     out: List[Tuple[object, ast.AST]] = []
     for c in ast.walk(e):
-        if isinstance(c, ast.Call) and call_attr(c) == "get" and dotted_name(c.func.value) in recv and c.args and isinstance(c.args[0], ast.Constant):  # type: ignore[attr-defined]
+        if isinstance(c, ast.Call) and call_attr(c) == "get" and dotted_name(_or_empty(c.func.value)) in recv and c.args and isinstance(c.args[0], ast.Constant):  # type: ignore[attr-defined]
             out.append((c.args[0].value, c))
-        elif isinstance(c, ast.Subscript) and dotted_name(c.value) in recv and isinstance(c.slice, ast.Constant):
+        elif isinstance(c, ast.Subscript) and dotted_name(_or_empty(c.value)) in recv and isinstance(c.slice, ast.Constant):
             out.append((c.slice.value, c))
     return out
+
+
+def _or_empty(e: ast.AST) -> ast.AST:
+    """`x` for a mapping with an empty stand-in for a missing one, in any spelling: `x or {}` / `x or dict()`,
+    `x if x else {}`, `x if x is not None else {}`, `{} if not x else x`, `{} if x is None else x`; else *e* itself.
+    (For reading keys the truthiness and the None test agree: an empty mapping and its stand-in hold the same.)"""
+    if isinstance(e, ast.BoolOp) and isinstance(e.op, ast.Or) and len(e.values) == 2 and _is_empty_dict(e.values[1]):
+        return e.values[0]
+    if isinstance(e, ast.IfExp):
+        test, there, missing = e.test, e.body, e.orelse
+        if isinstance(test, ast.UnaryOp) and isinstance(test.op, ast.Not):
+            test, there, missing = test.operand, missing, there
+        if isinstance(test, ast.Compare) and len(test.ops) == 1 and isinstance(test.comparators[0], ast.Constant) and test.comparators[0].value is None:
+            if isinstance(test.ops[0], (ast.Is, ast.Eq)):
+                there, missing = missing, there
+            elif not isinstance(test.ops[0], (ast.IsNot, ast.NotEq)):
+                return e
+            test = test.left
+        if _is_empty_dict(missing) and norm(test) == norm(there):
+            return there
+    return e
+
+
+def _is_empty_dict(v: Optional[ast.AST]) -> bool:
+    return (isinstance(v, ast.Dict) and not v.keys) or (isinstance(v, ast.Call) and isinstance(v.func, ast.Name) and v.func.id == "dict" and not v.args and not v.keywords)
 
 
 class Leaf:
@@ -462,7 +716,13 @@ def job_may_raise(repo: Repo, mod, fn: ast.AST, scope: ast.AST, whole: bool = Fa
                     continue
                 if isinstance(n.func, ast.Attribute) and n.func.attr == "format" and isinstance(n.func.value, ast.Constant) and isinstance(n.func.value.value, str):
                     continue  # formatting a literal template: no more than the f-string spelling of the same text does
-                if d in TOTAL_CALLS or (d.endswith(".metadata.get") and d.count(".") == 2) or (d.endswith(".get") and d[:-4] in md_alias):
+                if d in TOTAL_CALLS:
+                    continue
+                if isinstance(n.func, ast.Attribute) and n.func.attr == "get":
+                    rd = dotted_name(_or_empty(n.func.value)) or ""
+                    if (rd.endswith(".metadata") and rd.count(".") == 1) or rd in md_alias:
+                        continue  # dict.get on the message's metadata mapping (or the empty dict standing in for it)
+                if _builds_plain_dict(n, fn):
                     continue
                 if lenient and (id(n) in ctx_calls or is_status_publish(n, fn=fn) or sealed_helper(n)):
                     continue
@@ -470,6 +730,34 @@ def job_may_raise(repo: Repo, mod, fn: ast.AST, scope: ast.AST, whole: bool = Fa
         return set()
 
     return may_raise
+
+
+def _plain_dict_local(fn: ast.AST, name: str) -> bool:
+    """Every binding of the local is a dict display / `dict(..)` call: a built-in dict, whose update / setdefault /
+    stores run no user code."""
+    vals = [v for st in walk_no_nested(fn) for nm, v in _bindings(st) if nm == name]
+    params = {a.arg for a in fn.args.posonlyargs + fn.args.args + fn.args.kwonlyargs}  # type: ignore[attr-defined]
+    return bool(vals) and name not in params and all(
+        isinstance(v, ast.Dict) or (isinstance(v, ast.Call) and isinstance(v.func, ast.Name) and v.func.id == "dict") for v in vals)
+
+
+def _builds_plain_dict(c: ast.Call, fn: ast.AST) -> bool:
+    """The call assembles a built-in dict from values that are already there and cannot raise: `dict()`,
+    `dict(k=v, ..)`, `dict({..})`, `dict(<plain dict local>)`, `<plain dict local>.update({..} / k=v)`,
+    `<plain dict local>.setdefault(<constant>, v)` / `.copy()`."""
+    def plain(e: ast.AST) -> bool:
+        return isinstance(e, ast.Dict) or (isinstance(e, ast.Name) and _plain_dict_local(fn, e.id))
+
+    if isinstance(c.func, ast.Name) and c.func.id == "dict":
+        return len(c.args) <= 1 and all(plain(a) for a in c.args) and all(k.arg is not None or plain(k.value) for k in c.keywords)
+    if isinstance(c.func, ast.Attribute) and isinstance(c.func.value, ast.Name) and _plain_dict_local(fn, c.func.value.id):
+        if c.func.attr == "update":
+            return len(c.args) <= 1 and all(plain(a) for a in c.args) and all(k.arg is not None or plain(k.value) for k in c.keywords)
+        if c.func.attr == "setdefault":
+            return len(c.args) == 2 and isinstance(c.args[0], ast.Constant)
+        if c.func.attr == "copy":
+            return not c.args
+    return False
 
 
 def helper_always_publishes(repo: Repo, mod, call: ast.Call) -> Optional[Tuple[ast.FunctionDef, int, bool, bool]]:
@@ -510,13 +798,26 @@ def helper_always_publishes(repo: Repo, mod, call: ast.Call) -> Optional[Tuple[a
     return fn, params.index(jp), g.exc_exit in seen, g2.exc_exit in seen2
 
 
-def metadata_keys(call: ast.Call, fn: Optional[ast.AST] = None) -> Optional[Dict[str, ast.AST]]:
-    md = _deref(fn, kwarg(call, "metadata"))
-    if md is None:
+def metadata_keys(call: ast.Call, fn: Optional[ast.AST] = None) -> Optional[MapState]:
+    """{key: possible values (None: may be absent)} of the metadata mapping a publish call hands over, however the
+    mapping was assembled (see mapping_of); {} when the call passes none; None when it cannot be understood."""
+    md = kwarg(call, "metadata") or (call.args[3] if len(call.args) > 3 else None)
+    if md is None or (isinstance(md, ast.Constant) and md.value is None):
         return {}
     if isinstance(md, ast.Dict) and all(isinstance(k, ast.Constant) for k in md.keys):
-        return {k.value: v for k, v in zip(md.keys, md.values)}  # type: ignore[union-attr]
-    return None
+        return {k.value: [v] for k, v in zip(md.keys, md.values)}  # type: ignore[union-attr]
+    if fn is None or not isinstance(fn, FuncNode):
+        return None
+    g = _plain_cfg(fn)
+    at = _node_of(g, call)
+    if at is None:
+        return None
+    return mapping_of(fn, g, md, at)
+
+
+def _only(vals: Optional[List[Optional[ast.AST]]]) -> Optional[ast.AST]:
+    """The one expression a key holds on every path, else None."""
+    return vals[0] if vals is not None and len(vals) == 1 else None
 
 
 def _flag_names(fn: ast.AST) -> Set[str]:
@@ -561,7 +862,7 @@ def _eval_flags(test: ast.AST, env: Dict[str, Optional[bool]]) -> Optional[bool]
     return None
 
 
-def reach_with_flags(g: CFG, starts: List[int], blocked: Set[int], sealed: Set[int], flags: Set[str], skip_labels: Set[str]):
+def reach_with_flags(g: CFG, starts: List[int], blocked: Set[int], sealed: Set[int], flags: Set[str], skip_labels: Set[str], dead_edges: Optional[Set[Tuple[int, str]]] = None):
     """Reachability that keeps the value of constant-only boolean locals along each path, so that a branch on
     such a flag is followed only in the direction the path's own assignments allow (no infeasible paths
     through `done = True ... if not done:`).  A *blocked* (publishing) statement ends a path on its normal
@@ -589,7 +890,7 @@ def reach_with_flags(g: CFG, starts: List[int], blocked: Set[int], sealed: Set[i
             e2[a.targets[0].id] = bool(a.value.value)
             new_env = tuple(e2[k] for k in order)
         for t, lab in g.succ[nid]:
-            if lab in skip_labels:
+            if lab in skip_labels or (dead_edges and (nid, lab) in dead_edges):
                 continue
             if allowed is not None and lab in ("T", "F") and lab != allowed:
                 continue
@@ -624,6 +925,266 @@ def reach_with_flags(g: CFG, starts: List[int], blocked: Set[int], sealed: Set[i
 
     path_to.steps = steps_to  # type: ignore[attr-defined]
     return first, path_to
+
+
+SCENARIOS = ("truthy", "falsy", "absent", "no-metadata")
+_UNK: Tuple[Optional[bool], Optional[bool], str] = (None, None, "")
+_NONE: Tuple[Optional[bool], Optional[bool], str] = (False, True, "")
+
+
+class MarkerEval:
+    """What the master's expressions evaluate to for one kind of status message (*scenario*): the message's metadata
+    holds a truthy value under the marker key ('truthy'), a falsy value that is not None ('falsy'), lacks the key
+    ('absent'), or is empty / None ('no-metadata').  A value is (truthiness, is-None, tag) with None = not known;
+    tag 'md' marks the metadata mapping itself, 'mark' the marker value.  Interpreted: constants, displays, names
+    (every reaching definition, joined), `.metadata` reads, `x or y` / `x and y` / `not x`, conditional and
+    assignment expressions, `k in m`, `m.get(k[, d])`, `m[k]`, comparisons with None, bool(x), dict(m), m.copy().
+    Everything else is unknown, and a branch on an unknown test is followed both ways."""
+
+    def __init__(self, g: CFG, fn: ast.AST, not_md: Set[str]):
+        self.g, self.fn, self.key = g, fn, None
+        a = fn.args  # type: ignore[attr-defined]
+        self.params = {p.arg for p in a.posonlyargs + a.args + a.kwonlyargs} - set(not_md) - {"self", "cls"}
+        self._defs: Dict[Tuple[str, int], list] = {}
+        self._tests: Dict[tuple, Optional[bool]] = {}
+        self._feasible: Dict[tuple, Optional[list]] = {}
+
+    def _md(self, sc: str):
+        return (True, False, "md") if sc != "no-metadata" else (False, None, "md")
+
+    def _mark(self, sc: str):
+        return {"truthy": (True, False, "mark"), "falsy": (False, False, "mark")}.get(sc, _NONE)
+
+    @staticmethod
+    def _join(vals: list):
+        if not vals:
+            return _UNK
+        first = vals[0]
+        if all(v == first for v in vals):
+            return first
+        return tuple(first[i] if all(v[i] == first[i] for v in vals) else (None if i < 2 else "") for i in range(3))
+
+    def defs(self, name: str, at: int) -> list:
+        if (name, at) not in self._defs:
+            self._defs[(name, at)] = reaching_defs(self.g, name, at)
+        return self._defs[(name, at)]
+
+    def test_value(self, node, sc: str) -> Optional[bool]:
+        """Truth value of a branch node's test for a status message of kind *sc* (None: not known / being evaluated)."""
+        k = (node.id, sc, self.key)
+        if k not in self._tests:
+            self._tests[k] = None  # a test that depends on itself (loop-carried local) is unknown
+            self._tests[k] = self.val(node.part, sc, node.id)[0]
+        return self._tests[k]
+
+    def feasible_defs(self, name: str, at: int, sc: str) -> list:
+        """The definitions of *name* that reach *at* along a path a status message of kind *sc* can take: from the
+        definition to the use without passing another definition, following a branch whose test has a known value for
+        that message only in that direction.  (`x = None` / `if md: x = md.get(k)`: for a message with metadata only
+        the second definition reaches the test of x.)"""
+        ds = self.defs(name, at)
+        if len(ds) < 2:
+            return ds
+        k = (name, at, sc, self.key)
+        if k in self._feasible:
+            return self._feasible[k] if self._feasible[k] is not None else ds
+        self._feasible[k] = None  # re-entered while being computed: all of them
+        killers = {d.id for d in ds}
+        out = []
+        for d in ds:
+            seen: Set[int] = set()
+            todo = [d.id]
+            hit = False
+            first = True
+            while todo and not hit:
+                n = todo.pop()
+                node = self.g.nodes[n]
+                allowed = None
+                if node.kind in ("if", "while") and node.part is not None:
+                    t = self.test_value(node, sc)
+                    if t is not None:
+                        allowed = "T" if t else "F"
+                for t2, lab in self.g.succ[n]:
+                    if lab == EXC and first:
+                        continue  # the binding that raises binds nothing
+                    if allowed is not None and lab in ("T", "F") and lab != allowed:
+                        continue
+                    if t2 == at:
+                        hit = True
+                        break
+                    if t2 not in seen and t2 not in killers:
+                        seen.add(t2)
+                        todo.append(t2)
+                first = False
+            if hit:
+                out.append(d)
+        self._feasible[k] = out if out else None
+        return out if out else ds
+
+    def bound_values(self, name: str, at: int, sc: Optional[str] = None) -> Optional[List[Tuple[ast.AST, int]]]:
+        """[(value expression, node)] for every definition of the local that reaches *at* (with *sc*: on a path a status
+        message of that kind can take); None where one of them is not a plain binding of a separable value (or the
+        name is a parameter / global)."""
+        out: List[Tuple[ast.AST, int]] = []
+        ds = self.defs(name, at) if sc is None else self.feasible_defs(name, at, sc)
+        if not ds:
+            return None
+        for d in ds:
+            vals = [v for nm, v in _bindings(d.ast) if nm == name] if d.kind == "stmt" else []
+            if not vals or any(v is None for v in vals):
+                return None
+            out += [(v, d.id) for v in vals]  # type: ignore[misc]
+        return out
+
+    def val(self, e: Optional[ast.AST], sc: str, at: int, depth: int = 0):
+        if e is None or depth > 12:
+            return _UNK
+        if isinstance(e, ast.Constant):
+            return (bool(e.value), e.value is None, "")
+        if isinstance(e, (ast.List, ast.Tuple, ast.Set)):
+            return ((bool(e.elts) if not any(isinstance(x, ast.Starred) for x in e.elts) else None), False, "")
+        if isinstance(e, ast.Dict):
+            return ((bool(e.keys) if all(k is not None for k in e.keys) else None), False, "")
+        if isinstance(e, (ast.JoinedStr, ast.ListComp, ast.DictComp, ast.SetComp, ast.GeneratorExp, ast.Lambda)):
+            return (None if not isinstance(e, (ast.GeneratorExp, ast.Lambda)) else True, False, "")
+        if isinstance(e, ast.Attribute):
+            return self._md(sc) if e.attr == "metadata" else _UNK
+        if isinstance(e, ast.Name):
+            bound = self.bound_values(e.id, at, sc)
+            if bound is None:
+                if not self.defs(e.id, at) and e.id in self.params and self._is_md_param(e.id):
+                    return self._md(sc)
+                return _UNK
+            return self._join([self.val(v, sc, d, depth + 1) for v, d in bound])
+        if isinstance(e, ast.NamedExpr):
+            return self.val(e.value, sc, at, depth + 1)
+        if isinstance(e, ast.UnaryOp) and isinstance(e.op, ast.Not):
+            t = self.val(e.operand, sc, at, depth + 1)[0]
+            return (None if t is None else not t, False, "")
+        if isinstance(e, ast.BoolOp):
+            return self._boolop(list(e.values), isinstance(e.op, ast.Or), sc, at, depth + 1)
+        if isinstance(e, ast.IfExp):
+            t = self.val(e.test, sc, at, depth + 1)[0]
+            if t is True:
+                return self.val(e.body, sc, at, depth + 1)
+            if t is False:
+                return self.val(e.orelse, sc, at, depth + 1)
+            return self._join([self.val(e.body, sc, at, depth + 1), self.val(e.orelse, sc, at, depth + 1)])
+        if isinstance(e, ast.Compare) and len(e.ops) == 1:
+            op, l, r = e.ops[0], e.left, e.comparators[0]
+            if isinstance(op, (ast.Is, ast.IsNot, ast.Eq, ast.NotEq)):
+                if isinstance(l, ast.Constant) and l.value is None:
+                    l, r = r, l
+                if isinstance(r, ast.Constant) and r.value is None:
+                    n = self.val(l, sc, at, depth + 1)[1]
+                    return _UNK if n is None else ((n if isinstance(op, (ast.Is, ast.Eq)) else not n), False, "")
+                return _UNK
+            if isinstance(op, (ast.In, ast.NotIn)) and isinstance(l, ast.Constant):
+                m = self.val(r, sc, at, depth + 1)
+                has: Optional[bool] = None
+                if m[2] == "md" and l.value == self.key:
+                    has = sc in ("truthy", "falsy")
+                elif m[2] != "md" and m[0] is False and m[1] is False:
+                    has = False  # an empty container
+                return _UNK if has is None else ((has if isinstance(op, ast.In) else not has), False, "")
+            return _UNK
+        if isinstance(e, ast.Subscript) and isinstance(e.slice, ast.Constant):
+            m = self.val(e.value, sc, at, depth + 1)
+            if m[2] == "md" and e.slice.value == self.key and sc in ("truthy", "falsy"):
+                return self._mark(sc)
+            return _UNK
+        if isinstance(e, ast.Call):
+            if isinstance(e.func, ast.Attribute) and e.func.attr == "get" and 1 <= len(e.args) <= 2 and isinstance(e.args[0], ast.Constant) and not e.keywords:
+                m = self.val(e.func.value, sc, at, depth + 1)
+                missing = self.val(e.args[1], sc, at, depth + 1) if len(e.args) == 2 else _NONE
+                if m[2] == "md":
+                    if e.args[0].value != self.key:
+                        return _UNK
+                    return self._mark(sc) if sc in ("truthy", "falsy") else missing
+                if m[0] is False and m[1] is False:
+                    return missing  # .get on an empty mapping
+                return _UNK
+            if isinstance(e.func, ast.Attribute) and e.func.attr == "copy" and not e.args:
+                m = self.val(e.func.value, sc, at, depth + 1)
+                return m if m[2] == "md" else _UNK
+            if isinstance(e.func, ast.Name) and e.func.id == "bool" and len(e.args) == 1:
+                t = self.val(e.args[0], sc, at, depth + 1)[0]
+                return (t, False, "")
+            if isinstance(e.func, ast.Name) and e.func.id == "dict" and len(e.args) == 1 and not e.keywords:
+                m = self.val(e.args[0], sc, at, depth + 1)
+                return m if m[2] == "md" and m[1] is False else _UNK
+        return _UNK
+
+    def _boolop(self, values: List[ast.AST], is_or: bool, sc: str, at: int, depth: int):
+        x = self.val(values[0], sc, at, depth)
+        if len(values) == 1:
+            return x
+        if x[0] is is_or:
+            return x  # short circuit: `truthy or ..` / `falsy and ..` is the first operand
+        rest = self._boolop(values[1:], is_or, sc, at, depth)
+        if x[0] is None:
+            return self._join([(is_or, (False if is_or else x[1]), x[2]), rest])
+        return rest
+
+    def _is_md_param(self, name: str) -> bool:
+        """A parameter plays the metadata mapping when a constant key is read from it (`p.get(K)`, `p[K]`, `K in p`)."""
+        for x in walk_no_nested(self.fn):
+            recv = None
+            if isinstance(x, ast.Call) and call_attr(x) == "get" and x.args and isinstance(x.args[0], ast.Constant):
+                recv = x.func.value  # type: ignore[attr-defined]
+            elif isinstance(x, ast.Subscript) and isinstance(x.slice, ast.Constant) and isinstance(x.ctx, ast.Load):
+                recv = x.value
+            elif isinstance(x, ast.Compare) and len(x.ops) == 1 and isinstance(x.ops[0], (ast.In, ast.NotIn)) and isinstance(x.left, ast.Constant):
+                recv = x.comparators[0]
+            if isinstance(recv, ast.BoolOp) and isinstance(recv.op, ast.Or):
+                recv = recv.values[0]
+            if isinstance(recv, ast.Name) and recv.id == name:
+                return True
+        return False
+
+    def keys_read(self, e: ast.AST, at: int, depth: int = 0) -> List[object]:
+        """Constant keys read from the status metadata inside *e* (locals looked through)."""
+        out: List[object] = []
+        if depth > 4:
+            return out
+        for x in ast.walk(e):
+            k = recv = None
+            if isinstance(x, ast.Call) and call_attr(x) == "get" and x.args and isinstance(x.args[0], ast.Constant):
+                k, recv = x.args[0].value, x.func.value  # type: ignore[attr-defined]
+            elif isinstance(x, ast.Subscript) and isinstance(x.slice, ast.Constant) and isinstance(x.ctx, ast.Load):
+                k, recv = x.slice.value, x.value
+            elif isinstance(x, ast.Compare) and len(x.ops) == 1 and isinstance(x.ops[0], (ast.In, ast.NotIn)) and isinstance(x.left, ast.Constant):
+                k, recv = x.left.value, x.comparators[0]
+            if recv is not None and self.val(recv, "truthy", at)[2] == "md" and k not in out:
+                out.append(k)
+            if isinstance(x, ast.Name) and isinstance(x.ctx, ast.Load):
+                for v, d in self.bound_values(x.id, at) or []:
+                    out += [k2 for k2 in self.keys_read(v, d, depth + 1) if k2 not in out]
+        return out
+
+
+def scenario_reach(g: CFG, starts: List[int], ends: Set[int], ev: Optional[MarkerEval], sc: str) -> Set[int]:
+    """Nodes reachable from *starts* (not going on from *ends*) when every branch whose test has a known value for a
+    status message of kind *sc* is followed only in that direction (ev None: plain reachability)."""
+    seen = set(starts)
+    todo = list(starts)
+    while todo:
+        n = todo.pop()
+        if n in ends:
+            continue
+        node = g.nodes[n]
+        allowed = None
+        if ev is not None and node.kind in ("if", "while") and node.part is not None:
+            t = ev.val(node.part, sc, n)[0]
+            if t is not None:
+                allowed = "T" if t else "F"
+        for t2, lab in g.succ[n]:
+            if allowed is not None and lab in ("T", "F") and lab != allowed:
+                continue
+            if t2 not in seen:
+                seen.add(t2)
+                todo.append(t2)
+    return seen
 
 
 def run(repo: Repo, R: Report) -> None:
@@ -686,8 +1247,20 @@ def run(repo: Repo, R: Report) -> None:
                 "a status is published for a job id that is not (only) the id read from this message's metadata: a value bound outside the job body or computed from something else reaches the publish (status could be published for another job)",
                 getattr(bad[0].expr, "lineno", loop.lineno) if bad else loop.lineno)
     if not job_vars:
+        # no status channel is named after an id read from this message.  Where the id that *is* used can be bound
+        # outside the job body (a parameter, a value kept from an earlier message) that is the defect, not a shape
+        # problem: the status goes out under an id that is not this job's
+        for nm, uses in sorted(cand.items()):
+            leaves = [l for u in uses for l in prov.alts(ast.Name(id=nm, ctx=ast.Load()), u)]
+            shared = next((l for l in leaves if l.kind == "outside"), None)
+            if shared is not None:
+                R.violation(r_corr, wrel, wqn, f"job id `{nm}` is not this message's id",
+                            f"the status channel is named after `{nm}`, which can hold `{norm(shared.expr)[:60]}` - bound outside the job body or computed from a value that outlives the job (another job's id, a parameter): "
+                            "the status is published for a job that is not the one that was run, and this job's Future never completes", getattr(shared.expr, "lineno", loop.lineno))
         raise AnalysisError(f"{wqn}: job id extraction from {msg}.metadata (the id the status channel is named after) not found")
-    job_key = sorted(job_keys, key=str)[0]
+    # (no key at all: the check above has reported the job id as not read from this message; the cfg hop below then
+    # has no key to agree on and says so)
+    job_key = sorted(job_keys, key=str)[0] if job_keys else None
 
     def publishes(n) -> Optional[str]:
         """'publish': the statement publishes this job's status (unless it raises); 'sealed': a summarised helper
@@ -717,9 +1290,27 @@ def run(repo: Repo, R: Report) -> None:
     flags = _flag_names(wl)
     in_handler = handler_statement_ids(loop)
     total_bad = 0
+    # `msg = next(it, None)`: the binding also stands for "no message left".  The branch edges on which the local is
+    # known to be None (and holds nothing but what such a binding gave it) are not part of any job
+    no_job_edges: Set[Tuple[int, str]] = set()
+    sentinel = [st for st in bind_stmts if isinstance(st, ast.Assign) and isinstance(st.value, ast.Call) and len(st.value.args) == 2
+                and isinstance(st.value.args[1], ast.Constant) and st.value.args[1].value is None]
+    if sentinel:
+        def no_message(x: ast.AST) -> Optional[bool]:
+            if isinstance(x, ast.Compare) and len(x.ops) == 1 and isinstance(x.ops[0], (ast.Is, ast.IsNot, ast.Eq, ast.NotEq)):
+                l, r = x.left, x.comparators[0]
+                if isinstance(l, ast.Constant) and l.value is None:
+                    l, r = r, l
+                if isinstance(l, ast.Name) and l.id == msg and isinstance(r, ast.Constant) and r.value is None:
+                    return isinstance(x.ops[0], (ast.Is, ast.Eq))
+            return None
+
+        for n in g.nodes:
+            if n.kind in ("if", "while") and n.part is not None and all(d.id in heads for d in reaching_defs(g, msg, n.id)):
+                no_job_edges |= {(n.id, lab) for lab in edges_guaranteeing(n.part, no_message)}
     for h in heads:
         starts = [t for t, lab in g.succ[h] if lab == ("T" if g.nodes[h].kind == "for" else "n")]
-        seen, path_to = reach_with_flags(g, starts, pub_nodes, sealed_nodes, flags, {BASE})
+        seen, path_to = reach_with_flags(g, starts, pub_nodes, sealed_nodes, flags, {BASE}, no_job_edges)
         for target, label in ((h, "next message"), (g.ret_exit, "worker returns"), (g.exc_exit, "exception escapes the worker")):
             if target in seen:
                 total_bad += 1
@@ -774,6 +1365,17 @@ def run(repo: Repo, R: Report) -> None:
                 return dotted_name(x.value), dotted_name(x.slice), "subscript"  # type: ignore[return-value]
             if isinstance(x, ast.Call) and call_attr(x) in ("get", "pop") and x.args and dotted_name(x.func.value) and (not maps or dotted_name(x.func.value) in maps):  # type: ignore[attr-defined]
                 return dotted_name(x.func.value), dotted_name(x.args[0]), call_attr(x)  # type: ignore[attr-defined,return-value]
+            if isinstance(x, ast.IfExp):
+                # `m[k] if k in m else None` (either way round): the explicit spelling of m.get(k)
+                t, hit, miss = x.test, x.body, x.orelse
+                if isinstance(t, ast.UnaryOp) and isinstance(t.op, ast.Not):
+                    t, hit, miss = t.operand, miss, hit
+                if isinstance(t, ast.Compare) and len(t.ops) == 1 and isinstance(t.ops[0], ast.NotIn):
+                    hit, miss = miss, hit
+                if isinstance(t, ast.Compare) and len(t.ops) == 1 and isinstance(t.ops[0], (ast.In, ast.NotIn)) and isinstance(miss, ast.Constant) and miss.value is None:
+                    r = direct(hit)
+                    if r is not None and r[2] == "subscript" and dotted_name(t.comparators[0]) == r[0] and dotted_name(t.left) == r[1]:
+                        return r[0], r[1], "get"
             return None
 
         if isinstance(e, ast.Name):
@@ -835,14 +1437,26 @@ def run(repo: Repo, R: Report) -> None:
             return True
         return any(call_attr(c) == "pop" and isinstance(c.func, ast.Attribute) and dotted_name(c.func.value) in maps_used for c in calls_in(n.ast))
 
+    def looked_up(x: ast.AST) -> Optional[str]:
+        """The key when *x* is the pending future fetched on the spot without removing it, None standing for a missing
+        entry: `<pending>.get(k)` / `<pending>.get(k, None)` / `<pending>[k] if k in <pending> else None`."""
+        if isinstance(x, ast.Call) and call_attr(x) == "get" and not (len(x.args) == 1 or (len(x.args) == 2 and isinstance(x.args[1], ast.Constant) and x.args[1].value is None)):
+            return None
+        r = future_ref(sf, x, maps_used) if isinstance(x, (ast.Call, ast.IfExp)) else None
+        return r[1] if r is not None and r[2] == "get" else None
+
     def pending_atom(x: ast.AST) -> Optional[bool]:
-        """`k in <pending>` / `<future local> is not None` / `<future local>`: the job has a pending future."""
+        """`k in <pending>` / `<future> is not None` / `<future>` (truthiness; a Future is never falsy), where <future> is
+        a local holding the looked-up future or the look-up itself: the job has a pending future."""
         if isinstance(x, ast.Compare) and len(x.ops) == 1:
             if isinstance(x.ops[0], (ast.In, ast.NotIn)) and dotted_name(x.comparators[0]) in maps_used:
                 return isinstance(x.ops[0], ast.In)
-            if isinstance(x.ops[0], (ast.Is, ast.IsNot)) and isinstance(x.comparators[0], ast.Constant) and x.comparators[0].value is None and isinstance(x.left, ast.Name) and x.left.id in fut_locals:
+            if isinstance(x.ops[0], (ast.Is, ast.IsNot)) and isinstance(x.comparators[0], ast.Constant) and x.comparators[0].value is None \
+                    and ((isinstance(x.left, ast.Name) and x.left.id in fut_locals) or looked_up(x.left) is not None):
                 return isinstance(x.ops[0], ast.IsNot)
         if isinstance(x, ast.Name) and x.id in fut_locals:
+            return True
+        if looked_up(x) is not None:
             return True
         return None
 
@@ -852,6 +1466,8 @@ def run(repo: Repo, R: Report) -> None:
                 return dotted_name(y.left)
             if isinstance(y, ast.Name) and y.id in fut_locals:
                 return fut_locals[y.id][1]
+            if looked_up(y) is not None:
+                return looked_up(y)
         return None
 
     guards = [(n, lab) for n in gq.nodes if n.kind in ("if", "while") and n.part is not None for lab in sorted(edges_guaranteeing(n.part, pending_atom))]
@@ -860,17 +1476,26 @@ def run(repo: Repo, R: Report) -> None:
         raise AnalysisError("run_forever: no set_result/set_exception on pending futures found")
     if not guards:
         R.violation(r_res, srel, sqn, "if jid in self.pending_futures", "future completion is not guarded by membership in pending_futures (a duplicate or unknown status raises / completes the wrong future)", sf.lineno)
-    popped = any(r[2] == "pop" for _c, r in comps)
+    # statements that fetch the pending future into a local by popping it: where one of them runs before the guard
+    # (it dominates the guard) the entry is already gone when the status block starts
+    pop_fetches = [n.id for n in gq.nodes if n.kind == "stmt" and n.ast is not None and any(nm in fut_locals and fut_locals[nm][2] == "pop" for nm, _v in _bindings(n.ast))
+                   and any(call_attr(c) == "pop" and isinstance(c.func, ast.Attribute) and dotted_name(c.func.value) in maps_used for c in calls_in(n.ast))]
     jid = None
-    for gd, glab in guards:
-        jid = guard_key(gd.part)
-        # the handling of one status message: the innermost loop around the guard, or the whole function
+
+    def status_block_ends(gd) -> List[int]:
+        """Where the handling of one status message is over: the innermost loop around the guard is re-entered or
+        left, or the function is."""
         scope = next((a for a in ancestors(gd.ast) if isinstance(a, (ast.For, ast.While))), None) if gd.ast is not sf else None
         if scope is not None and not any(scope is x for x in ast.walk(sf)):
             scope = None
         inside = {id(x) for x in ast.walk(scope)} if scope is not None else None
-        ends = [n.id for n in gq.nodes if n.kind in ("ret_exit", "exc_exit", "base_exit") or (scope is not None and n.ast is scope)
+        return [n.id for n in gq.nodes if n.kind in ("ret_exit", "exc_exit", "base_exit") or (scope is not None and n.ast is scope)
                 or (inside is not None and n.ast is not None and id(n.ast) not in inside)]
+
+    for gd, glab in guards:
+        jid = guard_key(gd.part)
+        # the handling of one status message: the innermost loop around the guard, or the whole function
+        ends = status_block_ends(gd)
         starts = [t for t, lab in gq.succ[gd.id] if lab == glab]
         saved = {j: gq.succ[j] for j in ends}
         for j in ends:
@@ -886,8 +1511,10 @@ def run(repo: Repo, R: Report) -> None:
         got_rm = set().union(*[c_rm.get(j, set()) for j in reached]) if reached else set()
         R.check(got_set == {1}, r_res, srel, sqn, norm(gd.part) + " -> set_result/set_exception",
                 f"a pending future is completed {sorted(got_set)} time(s) on some path of the status block (0 = caller waits forever, 2 = InvalidStateError)", gd.line)
-        R.check(got_rm == ({0} if popped else {1}), r_res, srel, sqn, norm(gd.part) + " -> remove entry",
-                f"the pending entry is removed {sorted(got_rm)} time(s) after completion (0 = a duplicate status completes it again)", gd.line)
+        popped_before = any(gq.dominated_by_node(gd.id, pf) for pf in pop_fetches)
+        R.check(got_rm == ({0} if popped_before else {1}), r_res, srel, sqn, norm(gd.part) + " -> remove entry",
+                f"the pending entry is removed {sorted(got_rm)} time(s) in the status block" + (" although the pop that fetched the future has removed it already" if popped_before else "")
+                + " (0 = a duplicate status completes it again, 2 = KeyError in the master loop)", gd.line)
         # keys used agree with the guard variable
         for c, r in comps:
             R.check(r[1] == jid, r_res, srel, sqn, norm(c)[:80] + " [key]", "the completed future is not the one looked up by the guard's job id", c.lineno)
@@ -903,55 +1530,42 @@ def run(repo: Repo, R: Report) -> None:
     if not exc_nodes:
         R.violation(r_res, srel, sqn, "set_exception", "the master has no exceptional completion: a failing job leaves the caller waiting forever", sf.lineno)
     else:
-        # marker: name tested on the branch selecting set_exception, read from msg.metadata[<key>]
-        marker_key = None
-        marker_var = None
-        test_kind = None
-        def marker_read(e: ast.AST):
-            for c in ast.walk(e):
-                if isinstance(c, ast.Call) and call_attr(c) == "get" and c.args and isinstance(c.args[0], ast.Constant) and "metadata" in ast.unparse(c.func):
-                    return c.args[0].value, c
-                if isinstance(c, ast.Subscript) and "metadata" in ast.unparse(c.value) and isinstance(c.slice, ast.Constant):
-                    return c.slice.value, c
-            return None
-
+        # marker: the metadata key of the status message whose value decides between the two completions.  The
+        # decision is evaluated, not matched: for a status whose metadata carries a truthy / a falsy (but not None)
+        # value under the key, lacks the key, or has no metadata at all, the status block is walked following each
+        # branch in the direction its test takes for that message (names through reaching definitions; `x or {}`,
+        # conditional expressions, `k in m`, `.get(k[, d])`, `m[k]`, None tests, not/and/or interpreted)
+        block_starts: List[int] = []
+        block_ends: Set[int] = set()
+        for gd, glab in guards:
+            block_starts += [t for t, lab in gq.succ[gd.id] if lab == glab]
+            block_ends |= set(status_block_ends(gd))
+        if not guards:
+            block_starts = [gq.entry]
+            block_ends = {n.id for n in gq.nodes if n.kind in ("ret_exit", "exc_exit", "base_exit")}
+        ev = MarkerEval(gq, sf, maps_used)
+        plain = scenario_reach(gq, block_starts, block_ends, None, "")
+        cand_keys: List[object] = []
         for n in gq.nodes:
-            if not (n.kind == "if" and n.part is not None and n not in guard_nodes):
-                continue
-            # the edge of this branch that selects the exceptional completion (either one: `if failed: set_exception`
-            # or `if not failed: set_result else: set_exception`)
-            labs = [lab for lab in ("T", "F") if any(gq.dominated_by_edge(e.id, n.id, lab) for e in exc_nodes)]
-            if len(labs) != 1:
-                continue
-            hit = marker_read(n.part)
-            if hit is not None:
-                marker_key, marker_var = hit[0], ast.unparse(hit[1])
-            else:
-                for nm in sorted({x.id for x in ast.walk(n.part) if isinstance(x, ast.Name)}):
-                    for rhs in assigned_value(sf, nm):
-                        hit = marker_read(rhs)
-                        if hit is not None:
-                            marker_key, marker_var = hit[0], nm
-            if marker_var:
-                mv = marker_var
-
-                def marker_atom(x: ast.AST, kind: str) -> Optional[bool]:
-                    if kind == "presence" and isinstance(x, ast.Compare) and len(x.ops) == 1 and isinstance(x.ops[0], (ast.Is, ast.IsNot)) and isinstance(x.comparators[0], ast.Constant) and x.comparators[0].value is None and ast.unparse(x.left) == mv:
-                        return isinstance(x.ops[0], ast.IsNot)
-                    if kind == "truthiness" and ast.unparse(x) == mv:
-                        return True
-                    return None
-
-                t = n.part
-                if labs[0] in edges_guaranteeing(t, lambda x: marker_atom(x, "presence")) and not isinstance(t, ast.BoolOp):
-                    test_kind = "presence"
-                elif labs[0] in edges_guaranteeing(t, lambda x: marker_atom(x, "truthiness")) and not isinstance(t, ast.BoolOp):
-                    test_kind = "truthiness"
-                elif isinstance(t, ast.Compare) and len(t.ops) == 1 and isinstance(t.ops[0], (ast.Eq, ast.In)):
-                    test_kind = "equality"
-                else:
-                    test_kind = "other"
-                break
+            if n.id in plain and n.kind in ("if", "while") and n.part is not None and n not in guard_nodes:
+                for k in ev.keys_read(n.part, n.id):
+                    if k not in cand_keys:
+                        cand_keys.append(k)
+        marker_key = None
+        test_kind = None
+        exc_ids, res_ids = {n.id for n in exc_nodes}, {n.id for n in res_nodes}
+        for k in cand_keys:
+            ev.key = k
+            sel: Dict[str, str] = {}
+            for sc in SCENARIOS:
+                seen_sc = scenario_reach(gq, block_starts, block_ends, ev, sc)
+                e_hit, r_hit = bool(seen_sc & exc_ids), bool(seen_sc & res_ids)
+                sel[sc] = "exception" if e_hit and not r_hit else "result" if r_hit and not e_hit else "?"
+            kind = "other"
+            if sel["truthy"] == "exception" and sel["absent"] == "result" and sel["no-metadata"] == "result":
+                kind = {"exception": "presence", "result": "truthiness"}.get(sel["falsy"], "other")
+            if marker_key is None or (test_kind == "other" and kind != "other"):
+                marker_key, test_kind = k, kind
         if marker_key is None:
             R.violation(r_res, srel, sqn, "failure marker", "the branch selecting set_exception does not test a marker read from the status message's metadata", sf.lineno)
         else:
@@ -964,9 +1578,11 @@ def run(repo: Repo, R: Report) -> None:
                         mk = metadata_keys(c, fn)
                         if mk is None:
                             raise AnalysisError(f"{W}: status publish with non-literal metadata")
-                        if marker_key in mk:
+                        vals = mk.get(marker_key, [None])
+                        if any(v is not None for v in vals):
                             n_fail += 1
-                            fail_values.append((fn, mk[marker_key], qualname_of(fn)))
+                            # a path on which the store of the marker is skipped sends the failure without it
+                            fail_values += [(fn, v if v is not None else ast.Constant(value=None), qualname_of(fn)) for v in vals]
                         else:
                             n_succ += 1
             R.check(n_fail > 0, r_res, W, "worker", f"failure status writes metadata[{marker_key!r}]", f"no worker status publish writes the marker {marker_key!r} the master tests: failures are reported as successes", 0)
@@ -974,7 +1590,7 @@ def run(repo: Repo, R: Report) -> None:
             # polarity: can a written failure value make the master's test false?
             for fn, val, qn in fail_values:
                 truthy = _provably_truthy(repo, wmod, fn, val)
-                not_none = truthy or _provably_not_none(fn, val)
+                not_none = truthy or _provably_not_none(repo, wmod, fn, val)
                 if test_kind == "presence":
                     ok = not_none
                 elif test_kind == "truthiness":
@@ -1003,8 +1619,8 @@ def run(repo: Repo, R: Report) -> None:
     for n in res_nodes:
         for c in calls_in(n.ast):
             if id(c) in comp_ids and c.func.attr == "set_result" and c.args:  # type: ignore[attr-defined]
-                a = c.args[0]
-                elts = [dotted_name(e) or "" for e in a.elts] if isinstance(a, ast.Tuple) else []
+                a = _deref(sf, c.args[0])  # the pair may be named, and so may its two halves
+                elts = [dotted_name(_deref(sf, e)) or "" for e in a.elts] if isinstance(a, ast.Tuple) else []
                 roots = {e.rsplit(".", 1)[0] for e in elts}
                 m = status_msg if (sf is rf or status_msg in sparams) else (roots.pop() if len(roots) == 1 and next(iter(roots)) in sparams else status_msg)
                 ok = elts == [f"{m}.data", f"{m}.context"]
@@ -1082,7 +1698,7 @@ def run(repo: Repo, R: Report) -> None:
     tmpl, tnames = channel_template(cp, cf)  # type: ignore[misc]
     R.check(tnames == [names[i_id]], r_corr, crel, cqn, norm(cp.args[0]), "cfg channel is not named after the dequeued job id", cp.lineno)
     mk = metadata_keys(cp, cf) or {}
-    R.check(job_key in mk and dotted_name(mk[job_key]) == names[i_id], r_corr, crel, cqn, f"metadata[{job_key!r}] = {names[i_id]}",
+    R.check(_only(mk.get(job_key)) is not None and dotted_name(_only(mk.get(job_key))) == names[i_id], r_corr, crel, cqn, f"metadata[{job_key!r}] = {names[i_id]}",
             f"the cfg message does not carry the dequeued job id under {job_key!r}, the key the worker reads", cp.lineno)
     # worker subscription pattern matches the master's cfg template, and vice versa for status
     wsubs = [c for c in calls_in(wl) if call_attr(c) == "subscribe" and c.args and isinstance(_deref(wl, c.args[0]), ast.Constant)]
@@ -1158,7 +1774,7 @@ def run(repo: Repo, R: Report) -> None:
 
     cp_data = kwarg(cp, "data") or (cp.args[1] if len(cp.args) > 1 else None)
     cp_ctx = _publish_context(cp)
-    R.check(pipe_key in mk and same_local(mk[pipe_key], i_pipe) and same_local(cp_data, i_data) and same_local(cp_ctx, i_ctx),
+    R.check(same_local(_only(mk.get(pipe_key)), i_pipe) and same_local(cp_data, i_data) and same_local(cp_ctx, i_ctx),
             r_corr, crel, cqn, "cfg publish carries pipeline/data/context of the same dequeued tuple", f"the cfg message mixes values of different jobs (or does not carry the pipeline under {pipe_key!r}, the key the worker reads)", cp.lineno)
 
     # ------------------------------------------------------------------ D5 transport hand-over
@@ -1331,47 +1947,86 @@ def scan_rule(repo: Repo, R: Report, rf: ast.AST, wl: ast.AST, worker: Tuple[str
     if not insert_locks:
         raise AnalysisError("in_memory transport: no insertion into the shared channel map found (publish)")
 
-    def live_walk(e: ast.AST, fn: ast.AST, cn: str, depth: int = 0) -> Optional[Tuple[str, str]]:
-        """Owner of the shared map *e* iterates lazily (not through a one-call snapshot), else None."""
-        amap = shared_maps.get(cn, {})
-        if isinstance(e, ast.Name) and depth < 3:
-            v = _deref(fn, e)
-            return live_walk(v, fn, cn, depth + 1) if v is not e and v is not None else None
-        d = dotted_name(e)
-        if d and d.startswith("self.") and d[5:] in amap:
-            return amap[d[5:]]
-        if isinstance(e, ast.Call):
-            if isinstance(e.func, ast.Attribute) and e.func.attr in ("items", "keys", "values") and not e.args:
-                return live_walk(e.func.value, fn, cn, depth)
-            if isinstance(e.func, ast.Name) and e.func.id in SNAPSHOT_FUNCS:
-                return None  # the map's own iteration happens inside one C-level call
-            if isinstance(e.func, ast.Attribute) and e.func.attr == "copy":
-                return None
-            for a in list(e.args) + [k.value for k in e.keywords]:  # enumerate / zip / filter / iter ...: lazy
-                r = live_walk(a, fn, cn, depth)
-                if r is not None:
-                    return r
-        if isinstance(e, ast.Starred):
-            return live_walk(e.value, fn, cn, depth)
-        return None
+    def consumers(x: ast.AST, fn: ast.AST, seen: Set[str]) -> List[Tuple[str, ast.AST]]:
+        """How the live map - or a live view / lazy iterator over it - that the expression *x* denotes is consumed,
+        followed upwards through the expression and through the locals it is bound to (uses the binding reaches):
+        [('walk', site)] where Python code runs between two steps of the map's iterator (for statement,
+        comprehension, `yield from`, `next` on a kept iterator), [('snapshot', site)] where it is copied inside one
+        C-level call; single-key operations, len / in / bool are no traversal at all."""
+        p = parent(x)
+        if isinstance(p, ast.Attribute) and p.value is x:
+            pp = parent(p)
+            if isinstance(pp, ast.Call) and pp.func is p and not pp.args:
+                if p.attr in ("items", "keys", "values"):
+                    return consumers(pp, fn, seen)
+                if p.attr == "copy":
+                    return [("snapshot", pp)]
+            return []
+        if isinstance(p, ast.Starred):
+            pp = parent(p)
+            if isinstance(pp, (ast.List, ast.Tuple, ast.Set)):
+                return [("snapshot", pp)]
+            x, p = p, pp
+        if isinstance(p, ast.keyword):
+            x, p = p, parent(p)
+        if isinstance(p, ast.Call) and p.func is not x:
+            name = (call_name(p) or "").split(".")[-1]
+            if name in SNAPSHOT_FUNCS:
+                return [("snapshot", p)]
+            if name == "next":
+                return [] if isinstance(x, ast.Call) else [("walk", p)]  # one step on a fresh iterator is a single operation
+            if name in LAZY_WRAPPERS or (call_name(p) or "").startswith("itertools."):
+                return consumers(p, fn, seen)
+            if name in CALLBACK_WALKERS and (kwarg(p, "key") is not None):
+                return [("walk", p)]
+            return []
+        if isinstance(p, (ast.For, ast.AsyncFor, ast.comprehension)) and p.iter is x:
+            return [("walk", p)]
+        if isinstance(p, ast.YieldFrom):
+            return [("walk", p)]
+        if isinstance(p, ast.BoolOp) or (isinstance(p, ast.IfExp) and p.test is not x):
+            return consumers(p, fn, seen)
+        tgt = None
+        if isinstance(p, ast.Assign) and p.value is x and len(p.targets) == 1:
+            tgt = p.targets[0]
+        elif isinstance(p, (ast.AnnAssign, ast.NamedExpr)) and p.value is x:
+            tgt = p.target
+        if isinstance(tgt, ast.Name) and tgt.id not in seen:
+            g = _plain_cfg(fn)
+            here = _node_of(g, x)
+            out: List[Tuple[str, ast.AST]] = []
+            for u in walk_no_nested(fn):
+                if isinstance(u, ast.Name) and u.id == tgt.id and isinstance(u.ctx, ast.Load):
+                    at = _node_of(g, u)
+                    if at is None or here is None or isinstance(p, ast.NamedExpr) or any(d.id == here for d in reaching_defs(g, tgt.id, at)):
+                        out += consumers(u, fn, seen | {tgt.id})
+            return out
+        return []
 
+    done: Set[int] = set()
     for cn in sorted(shared_maps):
+        amap = shared_maps[cn]
         for fn in [n for n in ast.walk(classes[cn]) if isinstance(n, FuncNode)]:
-            for n in walk_no_nested(fn):
-                if not isinstance(n, (ast.For, ast.AsyncFor, ast.comprehension)):
+            for x in walk_no_nested(fn):
+                d = dotted_name(x) if isinstance(x, ast.Attribute) and isinstance(x.ctx, ast.Load) else None
+                if not (d and d.startswith("self.") and d[5:] in amap):
                     continue
-                amap = shared_maps[cn]
-                base = n.iter
-                owner = live_walk(base, fn, cn)
-                mentions_map = any((dotted_name(x) or "").startswith("self.") and (dotted_name(x) or "")[5:] in amap for x in ast.walk(_deref(fn, base) or base))
-                if owner is None and not mentions_map:
-                    continue
-                common = insert_locks.get(owner) if owner is not None else None
-                locked = owner is not None and bool(common) and bool(locks_held_at(n if not isinstance(n, ast.comprehension) else n.iter, cn) & common)  # type: ignore[operator]
-                R.check(owner is None or locked, r_scan, T, qualname_of(fn),
-                        "for ... in " + norm(base)[:100],
-                        "the scan walks the live channel map shared with publishers: a publish on a new channel from another thread raises RuntimeError (dictionary changed size during iteration) inside `for msg in sub`" + consequence,
-                        getattr(base, "lineno", 0))
+                owner = amap[d[5:]]
+                common = insert_locks.get(owner)
+                for kind, site in consumers(x, fn, set()):
+                    if id(site) in done:
+                        continue
+                    done.add(id(site))
+                    if isinstance(site, (ast.For, ast.AsyncFor, ast.comprehension)):
+                        shown, text = site.iter, "for ... in " + norm(site.iter)[:100]
+                    elif isinstance(parent(site), (ast.For, ast.AsyncFor, ast.comprehension)) and parent(site).iter is site:  # type: ignore[union-attr]
+                        shown, text = site, "for ... in " + norm(site)[:100]
+                    else:
+                        shown, text = site, norm(site)[:110]
+                    locked = kind == "walk" and bool(common) and bool(locks_held_at(shown, cn) & common)  # type: ignore[operator]
+                    R.check(kind == "snapshot" or locked, r_scan, T, qualname_of(fn), text,
+                            "the scan walks the live channel map shared with publishers: a publish on a new channel from another thread raises RuntimeError (dictionary changed size during iteration) inside `for msg in sub`" + consequence,
+                            getattr(shown, "lineno", 0))
 
 
 MAP_MUTATORS = {"pop", "popitem", "clear", "setdefault", "update", "__setitem__", "__delitem__"}
@@ -1604,48 +2259,75 @@ def _last_stmt(path: List[str]) -> str:
     return "?"
 
 
-def _provably_truthy(repo: Repo, mod, fn: ast.AST, val: ast.AST, depth: int = 0) -> bool:
-    """Value written by a failure publish is truthy for every failure (non-empty constant, exception object)."""
-    if isinstance(val, ast.Constant):
-        return bool(val.value)
-    if isinstance(val, ast.JoinedStr):
-        return any(isinstance(v, ast.Constant) and v.value for v in val.values)
-    if isinstance(val, ast.Name) and depth < 2:
-        params = [a.arg for a in fn.args.args] if isinstance(fn, FuncNode) else []
+_CAUGHT = ast.Name(id="<caught exception>", ctx=ast.Load())  # stands for the object bound by `except .. as name`
+
+
+def _value_leaves(repo: Repo, mod, fn: ast.AST, val: ast.AST, depth: int = 0) -> Optional[List[ast.AST]]:
+    """The expressions a value written by a failure publish can be, followed through conditional expressions, the
+    locals it is named by (every binding of the local, `except .. as` included) and, for a parameter of a helper,
+    the argument of every call site in the module; None where that cannot be told."""
+    if depth > 5:
+        return None
+    if isinstance(val, ast.IfExp):
+        a, b = _value_leaves(repo, mod, fn, val.body, depth + 1), _value_leaves(repo, mod, fn, val.orelse, depth + 1)
+        return a + b if a is not None and b is not None else None
+    if isinstance(val, ast.Name) and val is not _CAUGHT:
+        a_ = fn.args if isinstance(fn, FuncNode) else None
+        params = [a.arg for a in a_.posonlyargs + a_.args + a_.kwonlyargs] if a_ is not None else []
+        bound = [v for st in walk_no_nested(fn) for nm, v in _bindings(st) if nm == val.id]
+        caught = any(isinstance(h, ast.ExceptHandler) and h.name == val.id for h in walk_no_nested(fn))
+        out: List[ast.AST] = []
         if val.id in params:
             idx = params.index(val.id)
-            # every call site passes a truthy thing: exception caught `as e`, or non-empty constant
             sites = []
             for f2 in [n for n in mod.defs.values() if isinstance(n, FuncNode)]:
                 for c in calls_in(f2):
-                    if call_attr(c) == fn.name and isinstance(c.func, ast.Name):
-                        a = c.args[idx] if idx < len(c.args) else kwarg(c, val.id)
-                        sites.append((f2, c, a))
+                    if call_attr(c) == fn.name and isinstance(c.func, ast.Name):  # type: ignore[attr-defined]
+                        sites.append((f2, c.args[idx] if idx < len(c.args) else kwarg(c, val.id)))
             if not sites:
-                return False
-            for f2, c, a in sites:
-                if isinstance(a, ast.Constant):
-                    if not a.value:
-                        return False
-                elif isinstance(a, ast.Name):
-                    caught = any(isinstance(h, ast.ExceptHandler) and h.name == a.id for h in ancestors(c))
-                    if not caught:
-                        return False
-                else:
-                    return False
+                return None
+            for f2, a in sites:
+                sub = _value_leaves(repo, mod, f2, a, depth + 1) if a is not None else None
+                if sub is None:
+                    return None
+                out += sub
+        elif not bound and not caught:
+            return None
+        for v in bound:
+            sub = _value_leaves(repo, mod, fn, v, depth + 1) if v is not None else None
+            if sub is None:
+                return None
+            out += sub
+        if caught:
+            out.append(_CAUGHT)
+        return out
+    return [val]
+
+
+def _provably_truthy(repo: Repo, mod, fn: ast.AST, val: ast.AST) -> bool:
+    """Value written by a failure publish is truthy for every failure (non-empty constant, exception object)."""
+    def truthy(v: ast.AST) -> bool:
+        if v is _CAUGHT:
             return True
-        # local bound by `except ... as name`
-        return any(isinstance(h, ast.ExceptHandler) and h.name == val.id for h in ast.walk(fn))
-    if isinstance(val, ast.Call) and call_attr(val) in ("repr",):
-        return True
-    return False
+        if isinstance(v, ast.Constant):
+            return bool(v.value)
+        if isinstance(v, ast.JoinedStr):
+            return any(isinstance(x, ast.Constant) and x.value for x in v.values)
+        return isinstance(v, ast.Call) and call_attr(v) in ("repr",)
+
+    leaves = _value_leaves(repo, mod, fn, val)
+    return leaves is not None and all(truthy(v) for v in leaves)
 
 
-def _provably_not_none(fn: ast.AST, val: ast.AST) -> bool:
-    if isinstance(val, ast.Constant):
-        return val.value is not None
-    if isinstance(val, (ast.JoinedStr, ast.Dict, ast.List, ast.Tuple)):
-        return True
-    if isinstance(val, ast.Call) and call_attr(val) in ("str", "repr", "format", "format_exc", "type"):
-        return True
-    return False
+def _provably_not_none(repo: Repo, mod, fn: ast.AST, val: ast.AST) -> bool:
+    def not_none(v: ast.AST) -> bool:
+        if v is _CAUGHT:
+            return True
+        if isinstance(v, ast.Constant):
+            return v.value is not None
+        if isinstance(v, (ast.JoinedStr, ast.Dict, ast.List, ast.Tuple)):
+            return True
+        return isinstance(v, ast.Call) and call_attr(v) in ("str", "repr", "format", "format_exc", "type")
+
+    leaves = _value_leaves(repo, mod, fn, val)
+    return leaves is not None and all(not_none(v) for v in leaves)
